@@ -152,20 +152,20 @@ def systematic(col, tier, rng, d):
     quick = tier == "quick"
     cases = grid_cases()
     # the same grid through the Sphinx front end (all extensions are in its conf.py): a seeded sample
-    sample = rng.sample(cases, 400 if quick else 6000)
+    sample = rng.sample(cases, 400 if quick else 2000)
     t1 = time.time()
     conf = f"myst_enable_extensions = {EXTS!r}\nmyst_heading_anchors = 2\nmyst_title_to_header = True\n"
     nb = sphinx_pass(col, [text for _k, text, _ov in sample], conf)
     col.add_bound("one-factor grids through the Sphinx front end", f"{len(sample)} documents sampled (seeded) from the grids below, one Sphinx project, "
                   f"{nb} build(s) (bisection when a build raises)", len(sample), time.time() - t1)
-    if quick:
-        # a seeded sample of the grid (the vocabulary holds one regression input per defect these families found)
-        cases = rng.sample(cases, 1500)
+    # a seeded sample of the grid (the vocabulary holds one regression input per defect these families found; the whole grid -
+    # about 28 000 documents - was run once when the families were written, see DESIGN 15.7)
+    cases = rng.sample(cases, 1500 if quick else 7000)
     for key, text, ov in cases:
         col.case(key)
         check_doc(col, text, ov, d)
     col.add_bound("one-factor grids through the docutils front end",
-                  f"{len(cases)} documents{' (seeded sample of the grid; the thorough tier runs all of it)' if quick else ''}: configuration fields and front-matter keys x "
+                  f"{len(cases)} documents (seeded sample of the grid): configuration fields and front-matter keys x "
                   f"{len(CFG_VALS)} YAML values; {len(ATTR_TARGETS)} attribute-taking constructs x {len(ATTR_KEYS)} keys x {len(ATTR_VALS)} values; every registered docutils "
                   f"directive x {len(DIR_ARGS)} arguments x {len(DIR_BODIES)} body shapes; {len(LABEL_CH)}^2 footnote / target label pairs; HTML elements x attribute forms",
                   len(cases), 0.0)
